@@ -123,7 +123,7 @@ class ScriptedSocket(socket.socket):
 
     def _real_close(self, _ss: typing.Any = socket.socket) -> None:  # type: ignore[override]
         st = self.vf
-        if not st.really_closed:
+        if not st.really_closed and not st.net.exited:
             st.really_closed = True
             st.closed_by = "close()" if st.explicit_close else "destructor"
             st.net._on_real_close(self)
@@ -132,7 +132,7 @@ class ScriptedSocket(socket.socket):
     def __del__(self) -> None:
         try:
             st = self.vf
-            if not st.really_closed:
+            if not st.really_closed and not st.net.exited:
                 st.really_closed = True
                 st.closed_by = "destructor"
                 st.net._event("gc-close", st.index)
@@ -253,6 +253,7 @@ class Net:
         self.max_open = 0
         self.checkout_fault_socks: set[int] = set()
         self.raised: list[BaseException] = []  # every exception object this network raised into urllib3, in order
+        self.exited = False
         self.on_event: typing.Callable[[tuple[typing.Any, ...]], None] | None = None
         self.before_dial_hook: typing.Callable[[dict[str, typing.Any]], None] | None = None
 
@@ -303,9 +304,28 @@ class Net:
         for mod, name, old in reversed(self._saved):
             setattr(mod, name, old)
         self._saved.clear()
+        # The network is over: nothing is recorded from here on.  Free every descriptor and break the reference
+        # cycles the harness itself created (injected exceptions keep tracebacks -> frames -> the pool, and the
+        # pool's weakref finaliser keeps its queue -> connections -> sockets -> this object alive), otherwise a
+        # long run exhausts file descriptors.
+        self.exited = True
+        for e in self.raised:
+            try:
+                e.__traceback__ = None
+            except Exception:  # noqa: BLE001
+                pass
+        self.raised = []
+        self.script = None
+        self.on_event = None
+        self.before_dial_hook = None
         for st in self.states:
             try:
                 st.peer.close()
+            except Exception:  # noqa: BLE001
+                pass
+        for sk in self.socks:
+            try:
+                socket.socket.close(sk)
             except Exception:  # noqa: BLE001
                 pass
 
